@@ -95,7 +95,11 @@ def eq_arr(a, b):
     if a.shape != b.shape:
         return False
     if a.dtype.names or b.dtype.names:
+        if not (a.dtype.names and b.dtype.names):
+            return len(a) == 0 and len(b) == 0
         return G.channel_bytes(a) == G.channel_bytes(b)
+    if a.dtype.kind == "V" or b.dtype.kind == "V":
+        return len(a) == 0 and len(b) == 0
     if a.dtype.kind == "O":
         return list(a) == list(b)
     if a.dtype.kind in "fc":
@@ -339,3 +343,365 @@ def run_C05():
     return res
 
 
+
+
+# ---------------------------------------------------------------------------------------------- C06
+
+def _segment_bounds(segs, data_len):
+    """(start, data_position, end) of each segment of the explicit encoding, recomputed from the bytes"""
+    return None
+
+
+@runner("C06")
+def run_C06():
+    from nptdms import TdmsFile
+    import struct
+    res = Result("random files (fixed-width types; strings only in single-chunk segments) cut at every byte offset "
+                 "from 4 to the file length, read eagerly and lazily, with an explicit next-segment offset and with "
+                 "the 0xFFFFFFFFFFFFFFFF marker in the last lead-in", "<= 3 segments x <= 3 channels; every cut "
+                                                                      "offset of every file (exhaustive per file)")
+    rng = random.Random(SEED + 6)
+    n_files = int(25 * BUDGET)
+    for segs in gen_cases(rng, n_files, types=[3, 10, 2, 0x44, 0x21], max_chunks=3, max_nv=3):
+        for unknown in (False, True):
+            data = G.encode(segs, "explicit", unknown_last=unknown)
+            full = TdmsFile.read(io.BytesIO(G.encode(segs, "explicit")))
+            fullv = {c.path: c[:] for g in full.groups() for c in g.channels()}
+            # segment layout from the bytes (lead-in fields)
+            bounds = []
+            pos = 0
+            while pos + 28 <= len(data):
+                toc = struct.unpack("<l", data[pos + 4:pos + 8])[0]
+                o = ">" if toc & 64 else "<"
+                (_, no, ro) = struct.unpack(o + "lQQ", data[pos + 8:pos + 28])
+                end = len(data) if no == 0xFFFFFFFFFFFFFFFF else pos + 28 + no
+                bounds.append((pos, pos + 28 + ro, end))
+                pos = end
+            # values of segments lying wholly before a cut
+            per_seg = []
+            for s in segs:
+                d = {}
+                for o in s.objects:
+                    if o["has_data"] and o["tcode"] is not None:
+                        d[o["path"]] = sum(len(c) for c in o["data"])
+                per_seg.append(d)
+            for cut in range(4, len(data) + 1):
+                piece = data[:cut]
+                res.case((cut, unknown, sig_of(segs)), True, {"cut": cut, "of": len(data)} if cut == 30 else None)
+                try:
+                    e = TdmsFile.read(io.BytesIO(piece))
+                    with TdmsFile.open(io.BytesIO(piece)) as l:
+                        lazyv = {c.path: c[:] for g in l.groups() for c in g.channels()}
+                        lens = {c.path: len(c) for g in l.groups() for c in g.channels()}
+                except Exception as ex:
+                    res.violation("c06/read-of-cut-file-raised", "cut %d of %d (unknown=%s): %r" % (cut, len(data), unknown, ex),
+                                  file_script(piece, "TdmsFile.read(io.BytesIO(data))\n"))
+                    continue
+                eagerv = {c.path: c[:] for g in e.groups() for c in g.channels()}
+                for p, v in eagerv.items():
+                    fv = fullv.get(p)
+                    if fv is None:
+                        res.violation("c06/invented-channel", p)
+                        continue
+                    if not eq_arr(v, fv[:len(v)]):
+                        res.violation("c06/not-a-prefix", "cut %d: %s got %r full %r" % (cut, p, v, fv),
+                                      file_script(piece, "pass\n"))
+                    if lens.get(p) != len(v) or not eq_arr(lazyv.get(p), v):
+                        res.violation("c06/lazy-eager-or-len-disagree", "cut %d: %s len %r eager %r lazy %r" %
+                                      (cut, p, lens.get(p), v, lazyv.get(p)), file_script(piece, "pass\n"))
+                    whole = sum(per_seg[i].get(p, 0) for i, b in enumerate(bounds) if b[2] <= cut)
+                    if len(v) < whole:
+                        res.violation("c06/lost-values-of-complete-segments", "cut %d: %s has %d < %d" % (cut, p, len(v), whole))
+                inside = any(b[1] <= cut < b[2] for b in bounds)
+                if unknown and bounds and cut >= bounds[-1][1]:
+                    inside = True        # a segment of unknown length is incomplete by definition
+                if bool(e.file_status.incomplete_final_segment) != inside:
+                    # a cut exactly at a declared end with the unknown marker is always 'inside' until EOF
+                    res.violation("c06/status-flag", "cut %d bounds %r: incomplete=%r expected %r" %
+                                  (cut, bounds, e.file_status.incomplete_final_segment, inside),
+                                  file_script(piece, "print(TdmsFile.read(io.BytesIO(data)).file_status.incomplete_final_segment)\n"))
+    return res
+
+
+# ---------------------------------------------------------------------------------------------- C09
+
+@runner("C09")
+def run_C09():
+    from nptdms import TdmsFile
+    import tempfile
+    import shutil
+    res = Result("random files written to a temp dir with and without a .tdms_index produced by the independent "
+                 "encoder (same segments, raw data dropped, TDSh tag): read / open / read_metadata with and without "
+                 "the index must agree; the index alone gives objects, properties, types, lengths and refuses data",
+                 "<= 3 segments x <= 3 channels")
+    rng = random.Random(SEED + 9)
+    tmp = tempfile.mkdtemp(prefix="verif_c09_", dir=os.environ.get("TMPDIR", "/tmp"))
+    try:
+        k = 0
+        for segs in gen_cases(rng, int(150 * BUDGET), types=[3, 10, 0x20, 0x44, 2]):
+            k += 1
+            for style in ("explicit", "incremental"):
+                data = G.encode(segs, style)
+                index = G.encode(segs, style, tag=b"TDSh", with_data=False)
+                d1 = os.path.join(tmp, "a%d" % k)
+                d2 = os.path.join(tmp, "b%d" % k)
+                os.makedirs(d1, exist_ok=True)
+                os.makedirs(d2, exist_ok=True)
+                open(os.path.join(d1, "f.tdms"), "wb").write(data)
+                open(os.path.join(d2, "f.tdms"), "wb").write(data)
+                open(os.path.join(d2, "f.tdms_index"), "wb").write(index)
+                res.case((style, sig_of(segs)), True, {"data": len(data), "index": len(index)} if k == 1 else None)
+
+                def snapshot(tf, with_data):
+                    out = {"root": dict(tf.properties), "groups": []}
+                    for g in tf.groups():
+                        out["groups"].append((g.name, sorted(g.properties.items(), key=str),
+                                              [(c.name, len(c), str(c.dtype), sorted(c.properties.items(), key=str),
+                                                (G.channel_bytes(c[:]) if with_data else None)) for c in g.channels()]))
+                    return out
+                try:
+                    a = snapshot(TdmsFile.read(os.path.join(d1, "f.tdms")), True)
+                    b = snapshot(TdmsFile.read(os.path.join(d2, "f.tdms")), True)
+                    if repr(a) != repr(b):
+                        res.violation("c09/read-differs-with-index", "style %s" % style)
+                    with TdmsFile.open(os.path.join(d1, "f.tdms")) as f1, TdmsFile.open(os.path.join(d2, "f.tdms")) as f2:
+                        if repr(snapshot(f1, True)) != repr(snapshot(f2, True)):
+                            res.violation("c09/open-differs-with-index", "style %s" % style)
+                    m1 = snapshot(TdmsFile.read_metadata(os.path.join(d1, "f.tdms")), False)
+                    m2 = snapshot(TdmsFile.read_metadata(os.path.join(d2, "f.tdms")), False)
+                    if repr(m1) != repr(m2):
+                        res.violation("c09/read_metadata-differs-with-index", "style %s" % style)
+                    io_only = TdmsFile.read(os.path.join(d2, "f.tdms_index"))
+                    m3 = snapshot(io_only, False)
+                    if repr(m3) != repr(m1):
+                        res.violation("c09/index-only-metadata-differs", "style %s: %r vs %r" % (style, m3, m1))
+                    for g in io_only.groups():
+                        for c in g.channels():
+                            if len(c) == 0:
+                                continue
+                            for name, fn in (("read_data", lambda: c.read_data()), ("[:]", lambda: c[:]),
+                                             ("[0]", lambda: c[0]), ("data_chunks", lambda: list(c.data_chunks()))):
+                                try:
+                                    fn()
+                                    res.violation("c09/index-only-returned-data", "%s via %s" % (c.path, name))
+                                except Exception:
+                                    pass
+                except Exception as e:
+                    res.violation("c09/raised", "style %s: %r" % (style, e))
+                shutil.rmtree(d1, ignore_errors=True)
+                shutil.rmtree(d2, ignore_errors=True)
+        # index-only with unknown-length marker (recorded finding)
+        segs = next(gen_cases(random.Random(1), 1, types=[3]))
+        idx = G.encode(segs, "explicit", tag=b"TDSh", with_data=False, unknown_last=True)
+        try:
+            TdmsFile.read(io.BytesIO(idx))
+        except TypeError as e:
+            res.violation("read_lead_in[index,nosize,bounded]/index-only-lead-in-never-TypeError",
+                          "index-only open with unknown-length marker: %r" % (e,))
+        except Exception:
+            pass
+    finally:
+        shutil.rmtree(tmp, ignore_errors=True)
+    return res
+
+
+# ---------------------------------------------------------------------------------------------- C19
+
+class Recorder(io.BytesIO):
+    def __init__(self, data):
+        io.BytesIO.__init__(self, data)
+        self.log = []
+
+    def read(self, n=-1):
+        p = self.tell()
+        b = io.BytesIO.read(self, n)
+        self.log.append((p, len(b)))
+        return b
+
+    def readinto(self, buf):
+        p = self.tell()
+        n = io.BytesIO.readinto(self, buf)
+        self.log.append((p, n))
+        return n
+
+
+@runner("C19")
+def run_C19():
+    from nptdms import TdmsFile
+    import struct
+    res = Result("contiguous random files opened through a recording stream: for every window / index the bytes "
+                 "fetched must lie in the requested channel's bytes of the chunks overlapping the request plus the "
+                 "4 tag bytes of each segment between the first and last needed; a repeated index into the cached "
+                 "chunk fetches nothing", "<= 3 segments x <= 3 channels x <= 3 chunks; all windows of channels "
+                                          "with <= 10 values")
+    rng = random.Random(SEED + 19)
+    for segs in gen_cases(rng, int(60 * BUDGET), types=[3, 10, 2], allow_interleaved=False, max_chunks=3):
+        data = G.encode(segs, "explicit")
+        # address map from the model: per channel, list of (value index range, byte range) per chunk
+        amap = {}
+        tags = []
+        pos = 0
+        for s in segs:
+            toc = struct.unpack("<l", data[pos + 4:pos + 8])[0]
+            o = ">" if toc & 64 else "<"
+            (_, no, ro) = struct.unpack(o + "lQQ", data[pos + 8:pos + 28])
+            dpos = pos + 28 + ro
+            tags.append((pos, pos + 4))
+            dobjs = [ob for ob in s.objects if ob["has_data"] and ob["tcode"] is not None]
+            csize = sum(ob["nv"] * G.WIDTH[ob["tcode"]] for ob in dobjs)
+            if csize:
+                for c in range(s.nchunks):
+                    off = dpos + c * csize
+                    for ob in dobjs:
+                        w = G.WIDTH[ob["tcode"]]
+                        ent = amap.setdefault(ob["path"], {"n": 0, "chunks": []})
+                        if ob["nv"]:
+                            ent["chunks"].append((ent["n"], ent["n"] + ob["nv"], off, off + ob["nv"] * w, len(tags) - 1))
+                        ent["n"] += ob["nv"]
+                        off += ob["nv"] * w
+            pos = pos + 28 + no
+        rec = Recorder(data)
+        with TdmsFile.open(rec) as f:
+            for g in f.groups():
+                for ch in g.channels():
+                    ent = amap.get(ch.path)
+                    n = len(ch)
+                    if ent is None or n == 0 or n > 10:
+                        continue
+                    for off in range(0, n):
+                        for ln in range(1, n - off + 1):
+                            rec.log = []
+                            ch.read_data(off, ln)
+                            res.case((ch.path, off, ln, sig_of(segs)), True,
+                                     {"window": [off, ln], "reads": rec.log[:4]} if off == 0 and ln == 1 else None)
+                            need = [c for c in ent["chunks"] if c[0] < off + ln and c[1] > off]
+                            segs_touched = sorted(set(c[4] for c in need))
+                            allowed = [(c[2], c[3]) for c in need] + \
+                                      [tags[i] for i in range(segs_touched[0], segs_touched[-1] + 1)]
+                            for (p, k) in rec.log:
+                                if k and not any(a <= p and p + k <= b for (a, b) in allowed):
+                                    res.violation("c19/read-outside-the-requested-chunks",
+                                                  "%s read_data(%d,%d) fetched [%d,%d) allowed %r" % (ch.path, off, ln, p, p + k, allowed),
+                                                  file_script(data, "pass\n"))
+                    # cache: second index into the same chunk fetches nothing
+                    ch[0]
+                    rec.log = []
+                    ch[0]
+                    if any(k for (_, k) in rec.log):
+                        res.violation("c19/cache-hit-fetched-bytes", "%s: %r" % (ch.path, rec.log))
+    return res
+
+
+# ---------------------------------------------------------------------------------------------- C20
+
+def open_fds():
+    try:
+        return set(os.listdir("/proc/self/fd"))
+    except OSError:
+        return set()
+
+
+@runner("C20")
+def run_C20():
+    from nptdms import TdmsFile, TdmsWriter, ChannelObject
+    import tempfile
+    import shutil
+    res = Result("files on disk (good, bad tag, truncated metadata, unknown type, mismatching index) x {path, stream} x "
+                 "{with, without index}: descriptor table (/proc/self/fd) before and after read / read_metadata / "
+                 "open+close / with-block / writer with-block (also failing); caller streams stay open; reads after "
+                 "close raise; close twice", "5 file kinds x 2 index x 2 source kinds x 6 operations")
+    tmp = tempfile.mkdtemp(prefix="verif_c20_", dir=os.environ.get("TMPDIR", "/tmp"))
+    try:
+        segs = next(gen_cases(random.Random(SEED + 20), 1, types=[3, 10]))
+        good = G.encode(segs, "explicit")
+        idx = G.encode(segs, "explicit", tag=b"TDSh", with_data=False)
+        kinds = {
+            "good": good,
+            "bad-tag": b"XXXX" + good[4:],
+            "truncated-metadata": good[:40],
+            "unknown-type": B.enc_segment([{"path": "/'g'/'c'", "index": ("raw", __import__("struct").pack("<LLLQ", 20, 0x99, 1, 1))}], b"\x00" * 4),
+            "second-segment-bad-tag": good + b"XXXX" + good[4:],
+        }
+        for kind, data in kinds.items():
+            for with_index in (False, True):
+                d = os.path.join(tmp, "%s_%s" % (kind, with_index))
+                os.makedirs(d)
+                path = os.path.join(d, "f.tdms")
+                open(path, "wb").write(data)
+                if with_index:
+                    open(path + "_index", "wb").write(idx if kind != "bad-tag" else b"XXXX" + idx[4:])
+                for op in ("read", "read_metadata", "open-close", "with", "open-read-close-read-close"):
+                    before = open_fds()
+                    res.case((kind, with_index, op), True, {"kind": kind, "index": with_index, "op": op})
+                    tf = None
+                    try:
+                        if op == "read":
+                            TdmsFile.read(path)
+                        elif op == "read_metadata":
+                            TdmsFile.read_metadata(path)
+                        elif op == "open-close":
+                            tf = TdmsFile.open(path)
+                            tf.close()
+                            tf.close()
+                        elif op == "with":
+                            with TdmsFile.open(path) as tf:
+                                for g in tf.groups():
+                                    for c in g.channels():
+                                        c[:]
+                        else:
+                            tf = TdmsFile.open(path)
+                            chans = [c for g in tf.groups() for c in g.channels() if len(c)]
+                            if chans:
+                                chans[0][:]
+                            tf.close()
+                            for c in chans:
+                                try:
+                                    c.read_data()
+                                    res.violation("c20/read-after-close-returned-data", "%s %s" % (kind, c.path))
+                                except Exception:
+                                    pass
+                            tf.close()
+                    except Exception:
+                        pass
+                    after = open_fds()
+                    if after - before:
+                        res.violation("c20/descriptor-left-open", "%s index=%s op=%s: %r" % (kind, with_index, op, sorted(after - before)))
+            # caller-supplied stream is never closed
+            for op in ("read", "open-close"):
+                s = io.BytesIO(data)
+                try:
+                    if op == "read":
+                        TdmsFile.read(s)
+                    else:
+                        TdmsFile.open(s).close()
+                except Exception:
+                    pass
+                res.case((kind, "stream", op))
+                if s.closed:
+                    res.violation("c20/caller-stream-closed", "%s %s" % (kind, op))
+        # writer
+        for fail in (False, True):
+            for with_index in (False, True):
+                before = open_fds()
+                p = os.path.join(tmp, "w_%s_%s.tdms" % (fail, with_index))
+                try:
+                    with TdmsWriter(p, index_file=with_index) as w:
+                        w.write_segment([ChannelObject("g", "c", np.arange(3))])
+                        if fail:
+                            w.write_segment([ChannelObject("g", "c", np.zeros((2, 2)))])
+                except Exception:
+                    pass
+                res.case(("writer", fail, with_index))
+                if open_fds() - before:
+                    res.violation("c20/writer-descriptor-left-open", "fail=%s index=%s" % (fail, with_index))
+            s = io.BytesIO()
+            try:
+                with TdmsWriter(s) as w:
+                    w.write_segment([ChannelObject("g", "c", np.arange(3))])
+            except Exception:
+                pass
+            if s.closed:
+                res.violation("c20/writer-closed-caller-stream", "")
+    finally:
+        shutil.rmtree(tmp, ignore_errors=True)
+    return res
